@@ -6,6 +6,7 @@ use core::fmt::Debug;
 pub type StepSizeStrategy = Strategy;
 
 pub mod std_shim { }
+#[derive(Debug)]
 pub struct NutsError { pub code: u64 }
 pub enum Either<L, R> { Left(L), Right(R) }
 
@@ -55,6 +56,9 @@ pub trait Hamiltonian<M: Math>: Sized {
     fn step_size_mut(&mut self) -> (r: &mut F)
         ensures r.r() == old(self).step(), final(self).step() == final(r).r(),
                 final(self).trans() == old(self).trans();
+    /// (contract proved for TransformedHamiltonian in unit leapfrog: frames of init_state_untransformed)
+    fn init_state_untransformed(&mut self, math: &mut M, init: &[F]) -> (r: Result<State<M, Self::Point>, NutsError>)
+        ensures final(self).trans() == old(self).trans(), final(self).step() == old(self).step();
 }
 pub struct TransformedHamiltonian<M: Math, T: Transformation<M>> { pub step_size: F, pub transformation: T, pub _p: PhantomData<M> }
 impl<M: Math, T: Transformation<M>> Hamiltonian<M> for TransformedHamiltonian<M, T> {
@@ -63,6 +67,8 @@ impl<M: Math, T: Transformation<M>> Hamiltonian<M> for TransformedHamiltonian<M,
     open spec fn trans(&self) -> TransView { self.transformation.view() }
     fn step_size(&self) -> (r: F) { self.step_size }
     fn step_size_mut(&mut self) -> (r: &mut F) { &mut self.step_size }
+    #[verifier::external_body]
+    fn init_state_untransformed(&mut self, math: &mut M, init: &[F]) -> (r: Result<State<M, Self::Point>, NutsError>) { unimplemented!() }
 }
 impl<M: Math, T: Transformation<M>> TransformedHamiltonian<M, T> {
     pub fn transformation_mut(&mut self) -> (r: &mut T)
@@ -96,6 +102,15 @@ pub trait MassMatrixAdaptStrategy<M: Math>: Sized {
         ensures final(self).fg() == old(self).bg(), final(self).bg() == Seq::<Sample>::empty();
     fn current_count(&self) -> (r: u64) ensures r as int == self.fg().len();
     fn background_count(&self) -> (r: u64) ensures r as int == self.bg().len();
+    /// the start point seeds both windows and the transformation is initialised from its gradient
+    /// (relational form proved in units diagadapt / lowrankadapt)
+    fn init<R: Rng + ?Sized, VxP: Point<M>>(&mut self, math: &mut M, options: &mut NutsOptions, mass_matrix: &mut Self::Transformation,
+                                 point: &VxP, rng: &mut R) -> (r: Result<(), NutsError>)
+        ensures
+            r is Ok,
+            *final(options) == *old(options),
+            final(self).fg().len() == old(self).fg().len() + 1, final(self).bg().len() == old(self).bg().len() + 1,
+            final(mass_matrix).view().id == old(mass_matrix).view().id + 1;
     fn adapt(&self, math: &mut M, mass_matrix: &mut Self::Transformation) -> (r: bool)
         ensures !r ==> *final(mass_matrix) == *old(mass_matrix),
                 r ==> final(mass_matrix).view().id == old(mass_matrix).view().id + 1
@@ -118,6 +133,7 @@ impl Strategy {
             strat_wf(*old(self)),
         ensures
             final(hamiltonian).trans() == old(hamiltonian).trans(),
+            *final(options) == *old(options),
             ss_init_post(*old(self), *final(self), old(hamiltonian).step(), final(hamiltonian).step(), r is Ok),
     { unimplemented!() }
 }
@@ -135,6 +151,13 @@ pub trait AdaptStrategy<M: Math>: Sized {
         requires Self::new_pre(options, num_tune)
         ensures Self::new_post(options, num_tune, r);
 
+    spec fn init_pre(&self) -> bool;
+    spec fn init_post(&self, post: &Self, h0: &Self::Hamiltonian, h1: &Self::Hamiltonian, r: Result<(), NutsError>) -> bool;
+    fn init<R: Rng + ?Sized>(&mut self, math: &mut M, options: &mut NutsOptions, hamiltonian: &mut Self::Hamiltonian, position: &[F], rng: &mut R)
+        -> (r: Result<(), NutsError>)
+        requires old(self).init_pre()
+        ensures *final(options) == *old(options), old(self).init_post(final(self), old(hamiltonian), final(hamiltonian), r);
+
     spec fn adapt_pre(&self, h: &Self::Hamiltonian, draw: u64) -> bool;
     spec fn adapt_post(&self, post: &Self, h0: &Self::Hamiltonian, h1: &Self::Hamiltonian, draw: u64,
                        collector: &Self::Collector, r: Result<(), NutsError>) -> bool;
@@ -149,7 +172,8 @@ pub trait AdaptStrategy<M: Math>: Sized {
         rng: &mut R,
     ) -> (r: Result<(), NutsError>)
         requires old(self).adapt_pre(old(hamiltonian), draw)
-        ensures old(self).adapt_post(final(self), old(hamiltonian), final(hamiltonian), draw, collector, r);
+        ensures *final(options) == *old(options),
+                old(self).adapt_post(final(self), old(hamiltonian), final(hamiltonian), draw, collector, r);
 
     spec fn tuning_view(&self) -> bool;
     fn is_tuning(&self) -> (r: bool) ensures r == self.tuning_view();
